@@ -29,7 +29,7 @@ def in_unit(rng, kind, si_value, random_units=True, unit=None):
 
 
 def gen_spec(rng, *, random_units=True, sl_bias=0.35, rules=None, currents=None, max_stages=4,
-             optional_data=0.5, load_amp=None, steps=(4, 14), allow_rev_worm=True):
+             optional_data=0.5, load_amp=None, steps=(4, 14), allow_rev_worm=True, reuse=0.0):
     """a random valid powertrain + initial conditions + load; ops are added by the caller"""
     ru = random_units
     has_cur = currents if currents is not None else (rng.random() < 0.6)
@@ -97,6 +97,10 @@ def gen_spec(rng, *, random_units=True, sl_bias=0.35, rules=None, currents=None,
             ia, ib = add(a), add(bb)
             rels.append(['joint', prev, ia])
             rels.append(['gear', ia, ib, dy(rng, 0.5, 1)])
+            if reuse and rng.random() < reuse and a['module'] is None and bb['module'] is None:
+                # re-declaration before assembly: the former mating slave is now joined rigidly to the
+                # previous element (the pinion drops out of the chain)
+                rels.append(['joint', prev, ib])
             prev = ib
             continue
         pa, mx = rng.choice(WORM_PA)
